@@ -55,13 +55,15 @@ def _get_laplace_matrix(bcs: BoundariesList) -> tuple[NumericArray, NumericArray
 
         if i == 0:
             if r_min == 0:
-                matrix[i, i + 1] = 2 * scale
-                continue  # the special case of the inner boundary is handled
-            const, entries = bcs[0].get_sparse_matrix_data((-1,))
-            factor = scale - scale_i
-            vector[i] += const * factor
-            for k, v in entries.items():
-                matrix[i, k] += v * factor
+                # the virtual point at the origin does not contribute since its
+                # coefficient `scale - scale_i` vanishes
+                pass
+            else:
+                const, entries = bcs[0].get_sparse_matrix_data((-1,))
+                factor = scale - scale_i
+                vector[i] += const * factor
+                for k, v in entries.items():
+                    matrix[i, k] += v * factor
 
         else:
             matrix[i, i - 1] += scale - scale_i
